@@ -100,7 +100,10 @@ META.update({
     "C13": dict(technique="Lean 4 proof (missing variables exact, gluing of solutions, missing_values soundness) + differential three-module run",
                 text="Theorems missing_exact (missing variables = names mentioned and not defined, sorted), split_glue (a solution of the full model is a solution of every restriction fed "
                      "with its values for states, parameters and missing variables), states_partition, missing_values_sound, pin c_missing_index_name. Real code: every component as the split, "
-                     "missing variables compared with the model's, sub / rest modules fed from the full model, monitors / rhs / Euler / missing_values compared by name.",
+                     "missing variables compared with the model's, sub / rest modules fed from the full model, monitors / rhs / Euler / missing_values compared by name. "
+                     "GenValidMissing.genMissing_valid / genMissing_correct: the model's missing_values generator (with the early exit 'if n >= N: break') writes every requested value into its slot "
+                     "exactly once, for every well-formed model and every list of distinct requested names it defines; every real missing_values program is translated, validated by "
+                     "checkMissingValues and compared statement by statement with the model generator's program for the same split.",
                 note=TB),
     "C14": dict(technique="Lean 4 proof (batch evaluation is pointwise for array-safe expressions) + translation-time arraySafe check + differential batch runs",
                 text="Theorems evalVec_pointwise (column j of the batch value is the scalar value on column j, any number of columns, any interpretation), no_source_construct_scalarOnly, "
